@@ -97,6 +97,7 @@ def trace_family(ctx, r):
             big = 150      # many outputs: several BufWriter flushes of the 4 MB buffer are not reached by small chains
         s = scenario(r, cb, n=r.randrange(1, 6), per_file=r.choice([None, 2]), big=big, coin=["bitcoin", "litecoin"][i % 2])
         res, files, order = traced_run(s)
+        s.want_fstrace = True
         m = model_files(s)
         ctx.mark(("trace", i, cb), True)
         ctx.traces += 1
@@ -137,6 +138,22 @@ def trace_family(ctx, r):
             problems.append(("write-after-first-rename", [e[:3] for e in order[first_rename:first_rename + 6]], None))
         if res.tmp_files():
             problems.append(("tmp-left", sorted(res.tmp_files()), None))
+        if cb == "csvdump" and "fstrace" in m:
+            # the global order of write(2) and rename(2) over the four dump files = the trace of the n-writer machine `ON`
+            # (the one no_partial_final_at_any_instant_n is about) run on the write program of CsvDump::on_block
+            idx = {"blocks": 0, "transactions": 1, "tx_in": 2, "tx_out": 3}
+            got = []
+            for e in order:
+                base = e[1].split(".")[0].split("-")[0]
+                if base not in idx:
+                    continue
+                if e[0] == "write":
+                    got.append("w%d:%d" % (idx[base], e[2]))
+                elif e[0] == "rename":
+                    got.append("r%d" % idx[base])
+            if got != m["fstrace"]:
+                k = next((j for j, (x, y) in enumerate(zip(got, m["fstrace"])) if x != y), min(len(got), len(m["fstrace"])))
+                problems.append(("global-order-vs-ON-machine", got[max(0, k - 2):k + 4], m["fstrace"][max(0, k - 2):k + 4]))
         if problems:
             ctx.disagree("syscall-trace", bb.describe(s), {"problems": [list(map(str, p)) for p in problems[:5]], "exit": res.exit}, {"exit": m["exit"], "files": sorted(m["files"])}, True,
                          {"scenario": bb.scenario_dump(s), "observable": problems[0][0]})
